@@ -21,6 +21,7 @@ type coreProfile struct {
 	reconf    int // % of ticks with NoDelay / WndSize calls (mid-life; not for window monitors)
 	keepMode  bool // the NoDelay calls leave the no-delay MODE alone (first argument -1): boundary B4
 	growWnd   bool // a stalled reader's endpoint enlarges its receive window mid-stall
+	shrinkWnd bool // ... or lowers it below what already awaits the reader (C04: the advertisement stays truthful)
 	stall     int // % of cases in which one reader pauses for a while
 	fec       int // % of deliveries fed as non-regular (FEC-recovered) packets
 	bigSend   bool
@@ -336,6 +337,12 @@ func runCoreHistory(s *coreSim, rng *vrng, p coreProfile) (info coreCaseInfo) {
 				if p.growWnd && t == (stallFrom+stallTo)/2 {
 					s.WndSize(e, 0, 2*int(s.k[e].rcv_wnd)+rng.intn(8))
 					s.stats["stall-window-grown"]++
+				}
+				if p.shrinkWnd && t >= (stallFrom+stallTo)/2 && !s.shrunk[e] && s.k[e].rcv_queue.Len() >= 2 {
+					s.shrunk[e] = true
+					s.WndSize(e, 0, 1+rng.intn(s.k[e].rcv_queue.Len()-1))
+					s.Flush(e, true)
+					s.stats["stall-window-shrunk-below-backlog"]++
 				}
 				continue
 			}
